@@ -2,7 +2,12 @@
 PROPERTY = "C10"
 LEVEL = "proof"
 FUNCTIONS = ['uxarray.core.dataarray.UxDataArray._copy',
-    'uxarray.core.dataarray.UxDataArray._replace']
+    'uxarray.core.dataarray.UxDataArray._replace',
+    'uxarray.core.dataarray.UxDataArray._slice_from_grid@dims=time,n_face',
+    'uxarray.core.dataarray.UxDataArray._slice_from_grid@dims=n_face',
+    'uxarray.core.dataarray.UxDataArray._slice_from_grid@dims=n_node',
+    'uxarray.core.dataarray.UxDataArray._slice_from_grid@dims=lev,n_edge',
+    'uxarray.core.dataarray.UxDataArray._slice_from_grid@dims=time']
 STANDINS = ["xarray_ops"]
 ASSUMPTIONS = []
 EXPLANATION = ""
